@@ -72,6 +72,7 @@ func launch(name string) {
 	} else {
 		binary.Write(os.Stdout, binary.LittleEndian, uint32(cmd.Process.Pid))
 	}
+	verifPause("launch.afterStart")
 
 	finished := make(chan struct{})
 	go func() {
